@@ -10,6 +10,8 @@ Require Import TT.Spec.C05Spec TT.Spec.C05Known TT.Spec.C18Spec TT.Spec.C18Known
 Require Import TT.Model.C05Parse TT.Proofs.C05ParseProofs.
 Require Import TT.Proofs.TypeParseProofs TT.Proofs.RenderProofs TT.Proofs.C05Proofs TT.Proofs.C05Sweep TT.Proofs.C05Examples TT.Proofs.C18Proofs.
 Require Import TT.Proofs.C05PrefixProofs TT.Proofs.C05OracleProofs.
+Require TT.Model.C10Zod TT.Spec.C10Check.
+Require Import TT.Proofs.C05ZodProofs.
 Import ListNotations.
 Local Open Scope string_scope.
 
@@ -60,6 +62,15 @@ Theorem C18_subst_ts_sites : forall m t s md, mapping_ok m -> targets_ok m -> do
   exists text, emit_type s md m t = Some text /\
                observe (site_is_type s md) text = Some (expected s m t).
 Proof. intros m t s md. apply sound_ts_sites. Qed.
+
+(* ... and at ALL sites, the two Zod-mode schema sites included (a mapped name becomes the schema
+   z.M() of its target, read back as M), under the nesting premise and the explicit parse link
+   zod_parse_link (see Properties/C05.v): the absolute clause of C18_subst_full_statement. *)
+Theorem C18_subst_all_sites_under_link : zod_parse_link -> forall m t s md,
+  mapping_ok m -> targets_ok m -> dom_m m t = true -> tdepth (sem t) < 60 -> kf_C05 s md m t = false ->
+  exists text, emit_type s md m t = Some text /\
+               observe (site_is_type s md) text = Some (expected s m t).
+Proof. exact sound_all_sites. Qed.
 
 (* the absolute clause of the run-time oracle is exactly that statement *)
 Theorem C18_abs_oracle_exact : forall s md m t text, dom_m m t = true -> kf_C05 s md m t = false ->
@@ -140,6 +151,7 @@ Print Assumptions C18_frame_type.
 Print Assumptions C18_render_subst.
 Print Assumptions C18_subst_plain.
 Print Assumptions C18_subst_ts_sites.
+Print Assumptions C18_subst_all_sites_under_link.
 Print Assumptions C18_abs_oracle_exact.
 Print Assumptions C18_sweep_depth1_partial.
 Print Assumptions C18_sweep_domain_depth1_partial.
